@@ -206,6 +206,25 @@ def sign_change_inside_cell(a, b, g0, g1, n):
     return False
 
 
+def grid_ok(d, g0, g1, n):
+    """keep the intervals whose end points have an even sum in grid steps and are at least two steps apart: for the others the
+    stored grid values are one step too low after the middle (known finding C18-grid-odd-sum-interval, asserted by the unit test)"""
+    num = lambda x: (x - g0) * n        # index * (g1 - g0)
+    span = g1 - g0
+    keep = [(b, e) for b, e in d if num(b) % span == 0 and num(e) % span == 0 and ((num(b) + num(e)) // span) % 2 == 0 and (num(e) - num(b)) // span >= 2]
+    return keep or [(g0, g0 + 2 * span // n if 2 * span % n == 0 else g1)]
+
+
+def plateau_in_difference(a, b, g0, g1, n):
+    """does |a - b| have two equal non-zero values at adjacent grid points (known finding C18-grid-power-integral-plateau)"""
+    d = a.op(b, lambda x, y: x - y); dx = Fr(g1 - g0, n)
+    for l in d.lv:
+        for i in range(n):
+            ya, yb = l[int((g0 + i * dx) * 8) + 8], l[int((g0 + (i + 1) * dx) * 8) + 8]
+            if abs(ya) == abs(yb) and ya != 0: return True
+    return False
+
+
 def gen_grid(rng):
     step = rng.choice([1, 1, 2, 0]); hi = rng.choice([4, 6, 8, 10])     # 0 stands for a grid step of 1/2 (values that are not integers)
     if step == 2 and hi % 2: hi += 1
@@ -214,7 +233,7 @@ def gen_grid(rng):
     lines = ['window %d %d' % (LO, HI)]
     nd = rng.randrange(2, 4); objs = {}; sizes = {}
     for i in range(nd):
-        d = rand_diag(rng, 0, hi, step); lines.append('gdiag %d %d %d %d %s' % (i, g0, g1, n, dline(d)))
+        d = grid_ok(rand_diag(rng, 0, hi, step), g0, g1, n); lines.append('gdiag %d %d %d %d %s' % (i, g0, g1, n, dline(d)))
         objs[i] = Obj.grid([(Fr(b), Fr(e)) for b, e in d], g0, g1, n); sizes[i] = len(d)
         lines.append('geval %d %d' % (i, len(d) + 1))
     for _ in range(rng.randrange(2, 8)):
@@ -231,6 +250,7 @@ def gen_grid(rng):
         elif x < 0.85:
             a, b = rng.choice(ok), rng.choice(ok); p = rng.choice([0, 1, 2])
             if p and sign_change_inside_cell(objs[a], objs[b], g0, g1, n): p = 0
+            if p == 2 and plateau_in_difference(objs[a], objs[b], g0, g1, n): p = 1
             lines.append('gdist %d %d %d' % (a, b, p))
         else: lines.append('gip %d %d' % (rng.choice(ok), rng.choice(ok)))
     return lines
@@ -243,7 +263,9 @@ def exhaustive_small():
     cases = []
     for n in (1, 2):
         for d in itertools.combinations_with_replacement(iv, n):
-            cases.append(['window -4 20', 'diag 0 %s' % dline(list(d)), 'eval 0 %d' % (n + 1), 'int 0', 'gdiag 0 0 3 3 %s' % dline(list(d)), 'geval 0 %d' % (n + 1), 'gint 0'])
+            c = ['window -4 20', 'diag 0 %s' % dline(list(d)), 'eval 0 %d' % (n + 1), 'int 0']
+            if all((b + e) % 2 == 0 for b, e in d): c += ['gdiag 0 0 3 3 %s' % dline(list(d)), 'geval 0 %d' % (n + 1), 'gint 0']
+            cases.append(c)
     return cases
 
 
@@ -271,6 +293,7 @@ def run(ctx):
     vlib.correspondence(ctx, 'exact_form', [exe], drv, [gen_exact(ctx.rng) for _ in range(n)], nontrivial=nontriv, keep_prefix=1, canon=canon, oracle=oracle)
     vlib.correspondence(ctx, 'grid_form', [exe], drv, [gen_grid(ctx.rng) for _ in range(n)], nontrivial=nontriv, keep_prefix=1, canon=canon, oracle=oracle)
     vlib.correspondence(ctx, 'exhaustive_small', [exe], drv, exhaustive_small(), nontrivial=nontriv, keep_prefix=1, canon=canon, oracle=oracle)
+    vlib.run_known_witnesses(ctx, {'grid_form': [exe]}, drv, oracle, canon=canon)
     if thorough:
         sexe, err = vlib.build_harness(ctx, 'hC18_san', os.path.join(vlib.VERIF, 'harness', 'hC18.cpp'), sanitize=True)
         if sexe:
